@@ -15,7 +15,7 @@ RULE = ('pairs of real bilform calls related by (i) exchanging the two space int
         'by some rotation. distinct = distinct (curve, mesh, pair, relation, switch)')
 ASSUMPTIONS = ['L-shape: exchange and time shift only (no non-trivial symmetry is claimed)',
                'a time shift is used only if all four shifted end points are exact (Fraction equality), so that all four time differences are unchanged']
-REQUIRED = {t: ['rel:exchange', 'rel:time-shift', 'rel:rotation', 'rel:reflection', 'moved:interior->seam-touch', 'moved:onto-other-side', 'pair:synthetic-coarse-fine', 'pair:synthetic-nested-thin-slab',
+REQUIRED = {t: ['rel:exchange', 'rel:time-shift', 'rel:time-shift:thin-slab-to-late-time', 'rel:rotation', 'rel:reflection', 'moved:interior->seam-touch', 'moved:onto-other-side', 'pair:synthetic-coarse-fine', 'pair:synthetic-nested-thin-slab',
                 'switch:exact', 'switch:quad', 'curve:UnitSquare', 'curve:PiSquare', 'curve:LShape', 'curve:Circle']
             for t in ('quick', 'thorough')}
 TIMEOUT = {'quick': 900, 'thorough': 5400}
@@ -269,4 +269,36 @@ def run_shard(spec, acc):
                 if fr is None:
                     raise
                 acc.violation('bilform-raised:%s:%s' % (fr[0], type(ex).__name__), '%s: raised %s at %s:%d' % (curve, type(ex).__name__, fr[1], fr[2]), w)
+    # very thin slabs (time level 13-24) shifted to late times: the time lags are tiny relative to the absolute time there, and the entry
+    # must still depend on time differences only (relation (ii) alone: bit for bit; no accuracy or motion is asked at these aspects)
+    for _ in range(40 if curve != 'LShape' else 20):
+        si = rng.randrange(ns)
+        pc = [rng.randrange(2) for _ in range(rng.randint(1, 4))]
+        xa = descend(sides[si], pc)
+        xb = rng.choice([xa, descend(sides[si], pc[:-1] + [1 - pc[-1]]), descend(sides[(si + 1) % ns], [0] * len(pc))])
+        ht = 2.0**-rng.randint(13, 24)
+        k0, lag = rng.randint(0, 3), rng.choice([0, 1, 2, 2, 5])
+        rt0, tt0 = (k0 * ht, (k0 + 1) * ht), ((k0 + lag) * ht, (k0 + lag + 1) * ht)
+        for exact in (False, True):
+            SL = SLs[exact]
+            sw = 'exact' if exact else 'quad'
+            try:
+                base = SL.bilform(dummy(rt0, xb), dummy(tt0, xa))
+                for delta in (1.0, 0.5, 3.0, 1.0 - 2.0**-15, rng.choice([0.75, 2.0, 0.125])):
+                    if not all(Fraction(x + delta) == Fraction(x) + Fraction(delta) for x in tt0 + rt0):
+                        acc.count('time_shift_inexact_skipped')
+                        continue
+                    v = SL.bilform(dummy((rt0[0] + delta, rt0[1] + delta), xb), dummy((tt0[0] + delta, tt0[1] + delta), xa))
+                    acc.case('%s|%d|thin-late|%r|%r|%r|%s' % (curve, spec['rseed'], tt0, xa, delta, sw), None)
+                    acc.seen('rel:time-shift')
+                    acc.seen('rel:time-shift:thin-slab-to-late-time')
+                    if v != base:
+                        acc.violation('time-shift-not-bitwise:' + sw, '%s: %.17g vs %.17g after shifting both time intervals (slabs of height %r, lag %d) by %r'
+                                      % (curve, v, base, ht, lag, delta), dict(wit0, test=(tt0, xa), trial=(rt0, xb), delta=delta))
+            except Exception as ex:
+                fr = repo_frame(ex)
+                if fr is None:
+                    raise
+                acc.violation('bilform-raised:%s:%s' % (fr[0], type(ex).__name__), '%s: raised %s at %s:%d' % (curve, type(ex).__name__, fr[1], fr[2]),
+                              dict(wit0, test=(tt0, xa), trial=(rt0, xb)))
     acc.sample({'curve': curve, 'n_elements': n, 'pairs': len(pairs), 'sides': sides}, curve)
